@@ -91,6 +91,25 @@ func (r *Result) AddSession(s *SessionResult) {
 	}
 }
 
+// Merge adds the counters of a preliminary phase (sessions, steps, probes).
+func (r *Result) Merge(o *Result) {
+	if o == nil {
+		return
+	}
+	r.Sessions += o.Sessions
+	r.Steps += o.Steps
+	r.Bytes += o.Bytes
+	r.SimTimeMs += o.SimTimeMs
+	r.Shapes = append(r.Shapes, o.Shapes...)
+	r.Hashes = append(r.Hashes, o.Hashes...)
+	for k, v := range o.Probes {
+		r.Probe(k, v)
+	}
+	for k, v := range o.Faults {
+		r.Fault(k, v)
+	}
+}
+
 func (r *Result) Violate(kind, sig, detail string) {
 	if r.Violation == nil {
 		if len(detail) > 6000 {
